@@ -295,7 +295,7 @@ class Objects:
         if key[0] == "struct" or key[0] == "and":
             return f"struct:{p['_declared_in']}.{p['name']}"
         if key[0] == "lit":
-            return f"{key[1]}/.{p['name']}"
+            return f"{key[1]}|.{p['name']}"
         return f"{key}:{p['name']}"
 
 
@@ -365,6 +365,7 @@ class Gen:
         self.cfg = cfg or GenCfg()
         self.nodes = 0
         self.optional_set = 0
+        self.shape: Optional[str] = None  # 'min' | 'max' forces the shape of every object generated while set
 
     # -- entry points ---------------------------------------------------------------
     def root(self, root: tuple) -> TV:
@@ -397,6 +398,8 @@ class Gen:
 
     def obj(self, key: tuple, depth: int, mode: str = "rand", ri: Optional[int] = None) -> S:
         self.nodes += 1
+        if self.shape is not None:
+            mode = self.shape
         props = self.o.props(key)
         optional = [p for p in props if p.get("optional")]
         chosen: Set[str] = set()
@@ -453,7 +456,7 @@ class Gen:
                 return self.obj(("special", "ResponseError"), depth, "rand", ri)
             raise KeyError(n)
         if k == "array":
-            el = f"{locus}/[]"
+            el = f"{locus}|[]"
             cri = self._next(ri, el)
             forced = cri is not None
             if self._saturated(depth) and not forced:
@@ -463,7 +466,7 @@ class Gen:
             pos = self.draw(st.integers(0, n - 1)) if forced and n > 1 else 0
             return L([self.type(t["element"], el, depth + 1, cri if i == pos else None) for i in range(n)])
         if k == "map":
-            vl = f"{locus}/{{}}"
+            vl = f"{locus}|{{}}"
             cri = self._next(ri, vl)
             forced = cri is not None
             if self._saturated(depth) and not forced:
@@ -473,13 +476,13 @@ class Gen:
             )
             return Mp({key: self.type(t["value"], vl, depth + 1, cri if i == 0 else None) for i, key in enumerate(keys)})
         if k == "tuple":
-            return T([self.type(it, f"{locus}/{i}", depth + 1, self._next(ri, f"{locus}/{i}")) for i, it in enumerate(t["items"])])
+            return T([self.type(it, f"{locus}|{i}", depth + 1, self._next(ri, f"{locus}|{i}")) for i, it in enumerate(t["items"])])
         if k == "or":
             items = t["items"]
             idx = None
             cri = None
             for i in range(len(items)):
-                cri = self._next(ri, f"{locus}/{i}")
+                cri = self._next(ri, f"{locus}|{i}")
                 if cri is not None:
                     idx = i
                     break
@@ -491,7 +494,7 @@ class Gen:
                     idx = cands[self.draw(st.integers(0, len(cands) - 1))] if len(cands) > 1 else cands[0]
                 else:
                     idx = self.draw(st.integers(0, len(items) - 1))
-            return U(locus, idx, len(items), self.type(items[idx], f"{locus}/{idx}", depth, cri))
+            return U(locus, idx, len(items), self.type(items[idx], f"{locus}|{idx}", depth, cri))
         if k == "and":
             return self.obj(("and", locus), depth, "rand", ri)
         if k == "literal":
@@ -568,18 +571,6 @@ class Router:
         self.m = objects.model
         self._edges: Dict[str, List[str]] = {}
 
-    def _subloci(self, locus: str, t: dict) -> List[Tuple[str, Optional[str]]]:
-        """(direct child locus list) for a type node; reference targets are returned as node names."""
-        k = t["kind"]
-        out: List[str] = []
-        if k in ("or", "tuple"):
-            out = [f"{locus}/{i}" for i in range(len(t["items"]))]
-        elif k == "array":
-            out = [f"{locus}/[]"]
-        elif k == "map":
-            out = [f"{locus}/{{}}"]
-        return out
-
     def route(self, root: tuple, target: str, max_len: int = 40) -> Optional[List[str]]:
         """BFS over (locus) nodes; returns the list of loci to force, or None."""
         from collections import deque
@@ -614,13 +605,13 @@ class Router:
             nxt: List[Tuple[str, dict]] = []
             k = t["kind"]
             if k in ("or", "tuple"):
-                nxt = [(f"{l}/{i}", it) for i, it in enumerate(t["items"])]
+                nxt = [(f"{l}|{i}", it) for i, it in enumerate(t["items"])]
             elif k == "array":
-                nxt = [(f"{l}/[]", t["element"])]
+                nxt = [(f"{l}|[]", t["element"])]
             elif k == "map":
-                nxt = [(f"{l}/{{}}", t["value"])]
+                nxt = [(f"{l}|{{}}", t["value"])]
             elif k == "literal":
-                nxt = [(f"{l}/.{p['name']}", p["type"]) for p in t["value"]["properties"]]
+                nxt = [(f"{l}|.{p['name']}", p["type"]) for p in t["value"]["properties"]]
             elif k == "and":
                 key = ("and", l)
                 nxt = [(self.o.prop_locus(key, p), p["type"]) for p in self.m.and_props(t)]
@@ -638,3 +629,66 @@ class Router:
                     types[l2] = t2
                     dq.append(l2)
         return None
+
+
+# --------------------------------------------------------------------------------
+# use sites: every (root, route) under which a declared locus is reachable
+# --------------------------------------------------------------------------------
+def locus_chain(locus: str) -> List[str]:
+    """'struct:X.p|0|[]' -> ['struct:X.p', 'struct:X.p|0', 'struct:X.p|0|[]']"""
+    head, *rest = locus.split("|")
+    out = [head]
+    for r in rest:
+        out.append(out[-1] + "|" + r)
+    return out
+
+
+class Sites:
+    def __init__(self, objects: Objects):
+        self.o = objects
+        self.m = objects.model
+        # alias name -> loci of `reference alias` nodes
+        self.alias_refs: Dict[str, List[str]] = {}
+        # enum name -> loci of `reference enum` nodes
+        self.enum_refs: Dict[str, List[str]] = {}
+        for locus, t in objects.type_at.items():
+            if t["kind"] == "reference":
+                if t["name"] in self.m.aliases:
+                    self.alias_refs.setdefault(t["name"], []).append(locus)
+                elif t["name"] in self.m.enums:
+                    self.enum_refs.setdefault(t["name"], []).append(locus)
+        self._inheritors: Dict[Tuple[str, str], List[str]] = {}
+        for s in self.m.structs:
+            for p in self.m.flat_props(s):
+                self._inheritors.setdefault((p["_declared_in"], p["name"]), []).append(s)
+
+    def sites(self, locus: str, max_roots_per_prop: Optional[int] = None, _stack: Tuple[str, ...] = ()) -> List[Tuple[tuple, List[str]]]:
+        chain = locus_chain(locus)
+        head = chain[0]
+        out: List[Tuple[tuple, List[str]]] = []
+        if head.startswith("struct:"):
+            sname, pname = head[len("struct:"):].split(".", 1)
+            roots = self._inheritors.get((sname, pname), [])
+            # declaring structure first
+            roots = sorted(roots, key=lambda r: (r != sname, r))
+            if max_roots_per_prop is not None:
+                roots = roots[:max_roots_per_prop]
+            for r in roots:
+                out.append((("struct", r), chain))
+        elif head.startswith("alias:"):
+            a = head[len("alias:"):]
+            if a in _stack:
+                return []
+            out.append((("alias", a), chain))
+            for ref in self.alias_refs.get(a, []):
+                for root, rroute in self.sites(ref, max_roots_per_prop, _stack + (a,)):
+                    out.append((root, rroute + chain))
+        elif head.startswith("request:") or head.startswith("notification:"):
+            kind, rest = head.split(":", 1)
+            method, facet = rest.rsplit(":", 1)
+            if facet == "params":
+                out.append((("msg", kind, method), chain))
+            elif facet == "result":
+                out.append((("msg", "response", method), chain))
+            # partialResult / errorData / registrationOptions have no typed surface of their own
+        return out
